@@ -182,6 +182,8 @@ def run(ctx):
         kind = 'set' if i % 2 == 0 else 'map'
         cases.append(('lit', kind, t, tr))
         cases.append(('ins', kind, t, tr))
+        if i % 2 == 1:
+            cases.append(('bigins', str(i // 2 % 8), t, tr))
 
     lines = []
     for op, kind, t, vals in cases:
@@ -190,6 +192,8 @@ def run(ctx):
             lines.append(' '.join(['cmp'] + G.ty_tokens(t) + toks))
         elif op == 'tri':
             lines.append(' '.join(['cmp'] + G.ty_tokens(t) + G.val_tokens(vals[0]) + G.val_tokens(vals[2])))
+        elif op == 'bigins':        # for the model: the final key list of a map that receives the same insertions
+            lines.append(' '.join(['ins', 'map'] + G.ty_tokens(t) + [str(len(vals))] + toks))
         else:
             lines.append(' '.join([op, kind] + G.ty_tokens(t) + [str(len(vals))] + toks))
     model = ctx.model(lines)
@@ -270,6 +274,24 @@ def run(ctx):
                               {'kind': kind, 'type': G.ty_text(t), 'items': [G.to_text(v) for v in sub], 'observed': got, 'expected': want})
             if model is not None and model[idx] != got:
                 ctx.mismatch(f'{kind}-literal', desc, got, model[idx])
+        elif op == 'bigins':
+            # big_map keys: a big map with an id, part of the keys already on chain (all 8 subsets over the run), every key written locally
+            vs = list(vals)
+            on_chain = [i for i in range(len(vs)) if (int(kind) >> i) & 1]
+            got = R.insert_all_big_map(t, vs, on_chain)
+            raws = [R.raw_of_abs(t, v) for v in vs]
+            want = [R._index_of(R.raw_of_abs(t, x), raws) for x in G.tz_sorted(vs)]
+            ctx.count('big_map_on_chain_subset', len(on_chain))
+            if got != want:
+                bad = next(((x, y) for x in vs for y in vs if cmp_fails(t, x, y)), None)
+                fam = fam_of(t, bad[0], bad[1], got) if bad else f'on-chain-keys-overwritten:{t if isinstance(t, str) else t[0]}'
+                ctx.violation(f'big_map-update-order:{fam}',
+                              f'big_map {G.ty_text(t)} unit with id 7, keys {[G.to_text(vs[i]) for i in on_chain]} on chain; UPDATE-insert {[G.to_text(v) for v in vs]} -> local key order {got} (expected {want})',
+                              {'kind': 'big_map', 'type': G.ty_text(t), 'on_chain': [G.to_text(vs[i]) for i in on_chain], 'inserted': [G.to_text(v) for v in vs], 'observed_order': got, 'expected_order': want})
+            if model is not None:
+                g = got if got == 'raise' else ' '.join(map(str, got))
+                if model[idx] != g:
+                    ctx.mismatch('big_map-update', desc, g, model[idx])
         else:
             vs = list(vals)
             got = R.insert_all(t, vs, kind)
